@@ -91,10 +91,10 @@ def shims_installed():
   from vizier._src.service import sql_datastore
   from vizier._src.service import vizier_service
 
-  saved = [(m, m.threading) for m in (vizier_service, ram_datastore, sql_datastore)]
-  vizier_service.threading = ThreadingShim('svc')
-  ram_datastore.threading = ThreadingShim('ds')
-  sql_datastore.threading = ThreadingShim('ds')
+  saved = [(m, m.threading) for m in (vizier_service, ram_datastore, sql_datastore) if hasattr(m, 'threading')]
+  for m, tag in ((vizier_service, 'svc'), (ram_datastore, 'ds'), (sql_datastore, 'ds')):
+    if hasattr(m, 'threading'):
+      m.threading = ThreadingShim(tag)
   try:
     yield
   finally:
